@@ -31,7 +31,8 @@ LEVEL = "fault_enumeration"
 RULE = (
     "fault points: every byte offset at which the cache write can be cut short (exhaustive for each tree), every key "
     "path x {delete, wrong-typed replacement}, whole-document replacements, directory-level faults; each fault is "
-    "followed by one scan on a real temp tree. Hypothesis adds sequences of faults, edits and scans. Non-trivial = the "
+    "followed by one scan on a real temp tree (every third scan in verbose mode; one tree holds byte-identical files of different languages; "
+    "wrong-typed values include text that is markup to the console library). Hypothesis adds sequences of faults, edits and scans. Non-trivial = the "
     "faulted cache file exists, is non-empty and differs from the valid bytes; distinct = distinct (tree, fault) - "
     "enumerated once each, generated sequences de-duplicated by digest"
 )
